@@ -43,19 +43,24 @@ def one(cand):
             res["detail"] = out[-300:]
             return res
         env = dict(os.environ)
-        rc, out = sh("/venv/bin/python -m pytest -q -p no:cacheprovider --timeout=900 2>&1 | grep -E '^[0-9]+ (passed|failed)|passed|failed' | tail -1",
+        prevr = PREV.get(cand)
+        if prevr and prevr.get("confirmed"):
+            # SEED_REUSE: the suite/demo confirmation of an unchanged candidate is kept; the checks are always re-run
+            for k in ("suite_with_mutant", "suite_ok", "demo_clean_exit", "demo_clean_tail", "demo_mutant_exit", "demo_mutant_tail", "confirmed"):
+                res[k] = prevr.get(k)
+        rc, out = (0, "") if res.get("confirmed") else sh("/venv/bin/python -m pytest -q -p no:cacheprovider --timeout=900 2>&1 | grep -E '^[0-9]+ (passed|failed)|passed|failed' | tail -1",
                      cwd=mut, env=env)
-        res["suite_with_mutant"] = out.strip().splitlines()[-1] if out.strip() else ""
-        res["suite_ok"] = "passed" in res["suite_with_mutant"] and "failed" not in res["suite_with_mutant"] and "error" not in res["suite_with_mutant"]
-        for label, d in (("clean", clean), ("mutant", mut)):
+        if not res.get("confirmed"):
+            res["suite_with_mutant"] = out.strip().splitlines()[-1] if out.strip() else ""
+            res["suite_ok"] = "passed" in res["suite_with_mutant"] and "failed" not in res["suite_with_mutant"] and "error" not in res["suite_with_mutant"]
+        for label, d in (() if res.get("confirmed") else (("clean", clean), ("mutant", mut))):
             e = dict(env, PYTHONPATH=d, SPP_ROOT=d)
             rc, out = sh(f"/venv/bin/python {demo}", cwd=d, env=e, timeout=600)
             res[f"demo_{label}_exit"] = rc
             res[f"demo_{label}_tail"] = out.strip()[-200:]
         res["confirmed"] = bool(res["suite_ok"] and res["demo_clean_exit"] == 0 and res["demo_mutant_exit"] != 0)
         det = {}
-        prev = PREV.get(cand, {}).get("checks")
-        for p in ([] if prev else PROPS):
+        for p in PROPS:
             e = dict(env, SPV_REPO=mut)
             try:
                 rc, out = sh(f"./check {p} --no-write", cwd="/verif", env=e, timeout=900)
@@ -67,8 +72,6 @@ def one(cand):
                     first = line.strip()[:300]
                     break
             det[p] = {"exit": rc, "first": first}
-        if prev:
-            det = prev
         res["checks"] = det
         res["detected_by"] = [p for p, v in det.items() if v["exit"] == 1]
         res["analysis_error_in"] = [p for p, v in det.items() if v["exit"] not in (0, 1)]
